@@ -227,7 +227,10 @@ def check_add_qubit(ctx: Ctx, aq):
     if len(inc) != 1:
         raise AnchorError(aq.short, f"{len(inc)} top-level updates of {cnt}: outside the tables")
     st = body[inc[0]]
-    by_one = (isinstance(st, ast.AugAssign) and isinstance(st.op, ast.Add) and norm(st.value) == "1") or (isinstance(st, ast.Assign) and norm(st.value).replace(" ", "") in (f"{cnt}+1", f"1+{cnt}"))
+    env0 = q.straight_line_env(body, st)
+    env0.pop(cnt, None)
+    lf = q.linear_form(st.value, env0) if isinstance(st, ast.Assign) else None
+    by_one = (isinstance(st, ast.AugAssign) and isinstance(st.op, ast.Add) and norm(st.value) == "1") or (lf == {cnt: 1, "": 1})
     ctx.check(by_one, "MP-inputs-first", aq, "the qubit count grows by one per add_qubit", norm(st), f"`{norm(st)}`", st)
     # names standing for the old count
     old = {cnt}
